@@ -611,8 +611,8 @@ def _check(ctx, rng, R, C, CU, tmp):
                           how + " '{7 usd to eur, pi}'")
         elif base is None or "usd" not in rates or "eur" not in rates:
             rc2, out2, err2 = j["pi"] if j["pi"] else (rc, out, err)
-            if rc != 1 or "Unknown unit" not in out + err or rc2 != 0 or out2.strip() != fmt_g(math.pi + 0.5, p_eff):
-                ctx.violation("no-cash-dimension", json.dumps(inp), "no currency units (diagnosed 'Unknown unit'), everything else evaluates: pi + 0.5 = "
+            if rc != 1 or out.strip() != "" or err.strip() == "" or rc2 != 0 or out2.strip() != fmt_g(math.pi + 0.5, p_eff):
+                ctx.violation("no-cash-dimension", json.dumps(inp), "no currency units (a diagnosed error, nothing on stdout), everything else evaluates: pi + 0.5 = "
                               + fmt_g(math.pi + 0.5, p_eff), "rc=%s out=%r err=%r / rc=%s out=%r" % (rc, out, err[-300:], rc2, out2), how + " 'pi + 0.5'")
         else:
             exp_conv = 7 * rates["eur"] / rates["usd"]
@@ -638,7 +638,7 @@ def _check(ctx, rng, R, C, CU, tmp):
             obs = "crash"
         else:
             obs = ("ok", pi_obs(out), table_used(out, T1, drates),
-                   "none" if (rc == 1 and "Unknown unit" in out + err) else "some", "C" * nwarn)
+                   "none" if (rc == 1 and out.strip() == "" and err.strip() != "") else "some", "C" * nwarn)
         cases_one.append(("startup one %s %s %s" % (cs.model(), us.model(), hs.model()), obs,
                           dict(name=name, both=("usd" in rates and "eur" in rates))))
         # ---------------- interpreter session
